@@ -37,7 +37,7 @@ MatchingAgrees(ln) ==
 EmbedExpected(ln) == Owned(ln, Embed(ln.ops, ln.dims, S1(ln.inds)))
 \* 2D+ lattices: coordinates are flattened as dim_map documents, then embedded
 Embed2DExpected(ln) == Embed(ln.ops, ln.dflat, S1(DimMap(ln.shape, ln.coos, FALSE, FALSE)))
-PKronExpected(ln) == PKron(ln.op, ln.dims, S1(ln.inds))
+PKronExpected(ln) == PKron(ln.mat, ln.dims, S1(ln.inds))
 
 (* ---- permute / partial trace / partial transpose ---- *)
 PermuteExpected(ln) == Permute(ln.x, ln.dims, S1(ln.perm))
